@@ -707,7 +707,7 @@ def run_pipeline(run, programs, tmpdir, mon):
                     cls = classify_tree(root, parser)
                     for what, detail in local:
                         failures.append({'program': pname, 'source': src, 'recursive': recursive,
-                                         'optional_features': repr(feats), 'what': what, 'detail': detail,
+                                         'optional_features': fmt_feats(feats), 'what': what, 'detail': detail,
                                          'classify': cls,
                                          'transformed': _safe_unparse(root)})
                 if len(run.samples) < 4 and pname.startswith('gen:'):
@@ -716,6 +716,14 @@ def run_pipeline(run, programs, tmpdir, mon):
         api._TRANSPILER = orig_transpiler
     run.extra['pipeline'] = stats
     return failures
+
+
+def fmt_feats(feats):
+    if feats is None:
+        return 'None'
+    if isinstance(feats, tuple):
+        return '(%s,)' % ', '.join('Feature.' + f.name for f in feats)
+    return 'Feature.' + feats.name
 
 
 def _safe_unparse(root):
